@@ -255,7 +255,7 @@ func runC15(c *Ctx) {
 		ce := CallsTo(Calls(fn), `\(\*sio\.clientSocket\)\.callEvent`)
 		c.Ob("C15-D3", name+"/replays-each-event", fn.Pos(), len(ce) == 1 && inLoop(ce[0].Instr.Block()) && func() bool {
 			for _, g := range GuardTerms(ce[0].Instr) {
-				if !strings.Contains(g, "rangeindex") {
+				if !strings.Contains(g, "idx<") {
 					return false
 				}
 			}
@@ -265,7 +265,7 @@ func runC15(c *Ctx) {
 			if ret, ok := b.Instrs[len(b.Instrs)-1].(*ssa.Return); ok && !(len(b.Preds) == 0 && b.Index != 0) {
 				early := false
 				for _, g := range GuardTerms(ret) {
-					if strings.Contains(g, "rangeindex") && strings.Contains(g, "len(s.receiveBuffer)") && strings.HasSuffix(g, "==true") {
+					if strings.Contains(g, "idx<") && strings.Contains(g, "len(s.receiveBuffer)") && strings.HasSuffix(g, "==true") {
 						early = true
 					}
 				}
